@@ -36,14 +36,15 @@
 //! Code-level tags — a case is excluded only when the difference is EXACTLY what the recorded spot explains
 //! (expressions: the decoded expression equals the original under some subset of the lossy rewrites in
 //! `lossy_with`; plans: the texts agree after the stated normalisation and the rows still agree):
-//! `column-relation-unquoted`, `literal-metadata-dropped`, `alias-metadata-dropped`, `cast-metadata-dropped`,
-//! `binary-operator-not-decodable`, `like-escape-char-non-ascii`, `json-nonfinite-float`, `json-float-not-exact`,
+//! `column-relation-unquoted`, `literal-metadata-dropped`, `window-frame-causal-flag-not-encoded`,
+//! `binary-operator-not-decodable`, `json-nonfinite-float`, `json-float-not-exact`,
 //! `float16-scalar-as-float32`, `nested-scalar-ipc-union-or-ree-child` (coarse: any failure of a scalar with a
 //! Union / RunEndEncoded child below the top level), `empty-relation-schema-dropped` (coarse: any text / schema
-//! decode difference of a plan holding an EmptyRelation with columns), `limit-fetch-none-decoded-as-max`,
-//! `union-nary-decoded-nested`, `union-schema-not-encoded` (plan holds a Union whose stored schema differs from
+//! decode difference of a plan holding an EmptyRelation with columns), `union-schema-not-encoded` (plan holds a Union whose stored schema differs from
 //! the one derived from its inputs).
-//! Repairs proposed and verified with mutrun (the regression cases pass on the patched tree):
+//! REPAIRED in /repo (entries `fixed`, cases replayed as plain regressions, signatures no longer recognised):
+//! alias-metadata-dropped, cast-metadata-dropped, like-escape-char-non-ascii, limit-fetch-none-decoded-as-max,
+//! union-nary-decoded-nested — patches:
 //! /verif/fixes/C35-alias-metadata-decoded.diff, C35-cast-metadata-decoded.diff, C35-like-escape-char-non-ascii.diff,
 //! C35-limit-fetch-none.diff, C35-union-nary-decoded-flat.diff.
 //!
@@ -227,13 +228,14 @@ fn lossy_with(e: &Expr, mask: u8) -> (Expr, Vec<&'static str>) {
 
 /// all recorded lossy spots applied
 fn lossy(e: &Expr) -> (Expr, Vec<&'static str>) {
-    lossy_with(e, 31)
+    lossy_with(e, 19)
 }
 
 /// Is `back` what `e` becomes under some subset of the recorded lossy spots? (Subsets, so that repairing one
 /// of them does not turn the cases that also show another one into unexplained differences.)
 fn explain_by_lossy(e: &Expr, back: &Expr) -> Option<Vec<&'static str>> {
-    let mut masks: Vec<u8> = (1..32).collect();
+    // alias / cast metadata (bits 4, 8) were repaired upstream: no longer explained away
+    let mut masks: Vec<u8> = (1..32u8).filter(|m| m & 12 == 0).collect();
     masks.sort_by_key(|m| m.count_ones());
     for m in masks {
         let (l, tags) = lossy_with(e, m);
@@ -255,8 +257,6 @@ pub enum ExprRt {
 fn decode_failure_tag(msg: &str) -> Option<&'static str> {
     if msg.contains("Unsupported binary operator") {
         Some("binary-operator-not-decodable")
-    } else if msg.contains("Invalid length for escape char") {
-        Some("like-escape-char-non-ascii")
     } else {
         None
     }
@@ -372,20 +372,7 @@ async fn run_plan_async(pc: &PlanCase, fx: &Fixture) -> CaseResult {
         if union_drift {
             return known_violation(&["union-schema-not-encoded"], format!("decoded plan differs in its textual form: {}{}\n  decoded plan:\n{t1}", first_diff(&t0, &t1), ctxt())).labels(labels);
         }
-        // recorded finding `limit-fetch-none-decoded-as-max`: `fetch=None` travels as i64::MAX and comes back as Some(i64::MAX)
-        let mut t1n = t1.clone();
-        if t1n.contains("fetch=9223372036854775807") && !t0.contains("fetch=9223372036854775807") {
-            t1n = t1n.replace("fetch=9223372036854775807", "fetch=None");
-            known.push("limit-fetch-none-decoded-as-max");
-        }
-        if t0 != t1n {
-            // recorded finding `union-nary-decoded-nested`
-            if flatten_unions(&t0) == flatten_unions(&t1n) {
-                known.push("union-nary-decoded-nested");
-            } else {
-                return CaseResult::violation(format!("decoded plan differs in its textual form: {}{}\n  decoded plan:\n{t1}", first_diff(&t0, &t1), ctxt())).labels(labels);
-            }
-        }
+        return CaseResult::violation(format!("decoded plan differs in its textual form: {}{}\n  decoded plan:\n{t1}", first_diff(&t0, &t1), ctxt())).labels(labels);
     }
     // expressions of the plan, one by one
     let default_codec = DefaultLogicalExtensionCodec {};
@@ -472,7 +459,7 @@ fn run_expr(spec: &ESpec) -> CaseResult {
         Err(m) => return CaseResult::violation(m).labels(labels),
     }
     let (lossy_e, _) = lossy(&e);
-    let undecodable = known.iter().any(|k| *k == "binary-operator-not-decodable" || *k == "like-escape-char-non-ascii");
+    let undecodable = known.iter().any(|k| *k == "binary-operator-not-decodable");
     let has_known = !known.is_empty();
     let accept = |back: &Expr| *back == e || (has_known && (*back == lossy_e || explain_by_lossy(&e, back).is_some()));
     let nan_literal = e.exists(|x| Ok(matches!(x, Expr::Literal(ScalarValue::Float32(Some(v)), _) if !v.is_finite()) || matches!(x, Expr::Literal(ScalarValue::Float64(Some(v)), _) if !v.is_finite()))).unwrap_or(false);
